@@ -227,7 +227,8 @@ def rule_bnaf_logdet(prog, rep, R="C02.bnaf"):
     for d in DEPTHS:
         k = f"BlockAutoregressiveNetwork[depth={d}].transform_and_log_det:chain-rule"
         it = Interp(prog, no_inline={BN + "logmatmulexp"})
-        it.self_fields = {"layers": ("list", tuple(("tuple", (("sym", f"L{i}"), ("sym", f"J{i}"))) for i in range(d + 1)))}
+        it.self_fields = {"layers": ("list", tuple(("tuple", (("sym", f"L{i}"), ("sym", f"J{i}"))) for i in range(d + 1))),
+                          "depth": C(d)}     # the constructor builds depth + 1 layers
         t = it.eval_method(c, "transform_and_log_det", [X, COND])
         if t[0] != "tuple" or len(t[1]) != 2:
             rep.undecided(R, site, k, f"result is not a pair: {show(t, 160)}")
